@@ -271,8 +271,10 @@ class Sched:
     """Deterministic cooperative scheduler over real threads: exactly one thread runs between two
     scheduling points (call start, lock enter, lock exit, every clock read, call end)."""
 
-    def __init__(self, rng, nthreads):
+    def __init__(self, rng, nthreads, choices=None):
         self.rng = rng
+        self.choices = choices          # None: random schedule; list: scripted (0 beyond its end)
+        self.taken = []                 # (choice made, number of alternatives) per scheduling step
         self.main = real_threading.Semaphore(0)
         self.sems = [real_threading.Semaphore(0) for _ in range(nthreads)]
         self.state = ["ready"] * nthreads      # ready | wantlock | done
@@ -301,8 +303,15 @@ class Sched:
             if steps > 100000:
                 self.error = "scheduler step limit"
                 break
-            env_advance(self.rng)
-            tid = self.rng.choice(runnable)
+            if self.choices is None:
+                env_advance(self.rng)
+                tid = self.rng.choice(runnable)
+            else:
+                i = len(self.taken)
+                c = self.choices[i] if i < len(self.choices) else 0
+                c = c if c < len(runnable) else 0
+                self.taken.append((c, len(runnable)))
+                tid = runnable[c]
             self.current = tid
             if self.state[tid] == "wantlock":
                 self.owner = tid
@@ -368,8 +377,9 @@ class ThreadingShim:
 dns.resolver.threading = ThreadingShim()
 
 
-def run_concurrent(kind, cfg, t0, ds0, programs, seed):
-    """returns (error, acquisition order [(tid, opidx)], reads, results, snapshots, state0, final)"""
+def run_concurrent(kind, cfg, t0, ds0, programs, seed, choices=None, sched_out=None):
+    """returns (error, acquisition order [(tid, opidx)], reads, results, snapshots, state0, final)
+    choices: scripted schedule (exhaustive exploration) instead of the seeded random one"""
     import random
 
     rng = random.Random(seed)
@@ -377,14 +387,16 @@ def run_concurrent(kind, cfg, t0, ds0, programs, seed):
     head = [0, cfg, t0, ds0, []] if kind == 0 else [1, cfg, t0, []]
     cache, _ = new_cache(head)
     state0 = state_obs(cache)
-    s = Sched(rng, len(programs))
+    s = Sched(rng, len(programs), choices)
     s.snapshot = lambda: state_obs(cache)
+    fine = choices is None
     results = {}
 
     def clock_hook():
         tid = s.current
         if s.owner == tid:
-            s.yield_(tid)            # a scheduling point inside the critical section
+            if fine:
+                s.yield_(tid)        # a scheduling point inside the critical section (time may pass)
             s.reads.setdefault((tid, s.opidx[tid]), []).append(CLOCK.now)
         return CLOCK.now
 
@@ -397,9 +409,11 @@ def run_concurrent(kind, cfg, t0, ds0, programs, seed):
         try:
             for i, op in enumerate(programs[tid]):
                 s.opidx[tid] = i
-                s.yield_(tid)
+                if fine:
+                    s.yield_(tid)
                 results[(tid, i)] = do_call(cache, op, tid + i)
-                s.yield_(tid)
+                if fine:
+                    s.yield_(tid)
         except BaseException as e:  # noqa
             s.error = f"thread {tid}: {type(e).__name__}: {e}"
         s.state[tid] = "done"
@@ -415,6 +429,8 @@ def run_concurrent(kind, cfg, t0, ds0, programs, seed):
         SCHED[0] = None
     for t in threads:
         t.join(timeout=0.2)
+    if sched_out is not None:
+        sched_out.extend(s.taken)
     return err, s.acq, s.reads, results, s.snap, state0, state_obs(cache)
 
 
@@ -437,11 +453,13 @@ def witness_of(programs, acq, reads, t0_now):
 def impl_concurrent(case):
     kind, cfg, t0 = case[0], case[1], case[2]
     if kind == 0:
-        ds0, ops, (seed, programs) = case[3], case[4], case[5]
+        ds0, ops, tail = case[3], case[4], case[5]
     else:
-        ds0, ops, (seed, programs) = [], case[3], case[4]
+        ds0, ops, tail = [], case[3], case[4]
+    seed, programs = tail[0], tail[1]
+    choices = tail[2] if len(tail) > 2 else None
     try:
-        err, acq, reads, results, snap, state0, final = run_concurrent(kind, cfg, t0, ds0, programs, seed)
+        err, acq, reads, results, snap, state0, final = run_concurrent(kind, cfg, t0, ds0, programs, seed, choices)
     except Exception as e:  # noqa
         return exc_code(e)
     if err:
@@ -670,6 +688,96 @@ def gen_concurrent(rng):
     return case, None
 
 
+CONC_ALPHABET = {
+    True: [[0, 0, []], [1, 0, None, 200, []], [1, 1, None, 101, []], [3, 0, []], [4, []], [5, 1, []], [6, 0, []], [9, []]],
+    False: [[0, 0, []], [1, 0, None, 200, []], [1, 1, None, 101, []], [3, 0, []], [4, []], [9, []]],
+}
+
+
+def conc_programs(lru, shape):
+    """all assignments of alphabet symbols to the slots of `shape` (ops per thread)"""
+    al = CONC_ALPHABET[lru]
+    slots = sum(shape)
+    for combo in itertools.product(range(len(al)), repeat=slots):
+        vid = 0
+        progs = []
+        it = iter(combo)
+        for n in shape:
+            p = []
+            for _ in range(n):
+                op = [list(x) if isinstance(x, list) else x for x in al[next(it)]]
+                if op[0] == 1:
+                    vid += 1
+                    op[2] = vid
+                p.append(op)
+            progs.append(p)
+        yield progs
+
+
+def all_schedules(kind, cfg, programs, limit=5000):
+    """depth-first enumeration of every schedule of the programs (scheduling points: lock enter and
+    lock exit; the clock stands still, so reads inside the lock need no scheduling point);
+    yields (choices, run result)"""
+    stack = [[]]
+    n = 0
+    while stack and n < limit:
+        prefix = stack.pop()
+        taken = []
+        res = run_concurrent(kind, cfg, 100, [], programs, 0, choices=prefix, sched_out=taken)
+        n += 1
+        made = [c for c, _ in taken]
+        yield made, res
+        for i in range(len(prefix), len(taken)):
+            for alt in range(1, taken[i][1]):
+                stack.append(made[:i] + [alt])
+
+
+def conc_case(kind, cfg, programs, choices, res):
+    err, acq, reads, results, snap, state0, final = res
+    ops = witness_of(programs, acq, reads, state0[-1])
+    tail = [0, programs, choices]
+    return [0, cfg, 100, [], ops, tail] if kind == 0 else [1, cfg, 100, ops, tail]
+
+
+def conc_check(kind, cfg, programs, choices, res):
+    """one explored schedule against the property: equivalent to its lock-order witness run
+    sequentially on a fresh cache, and the witness history satisfies the sequential oracle"""
+    err = res[0]
+    if err:
+        return [{"kind": "concurrent:scheduler", "what": err, "programs": programs, "choices": choices, "cache": kind, "cfg": cfg, "sig": "sched"}]
+    case = lib.normalize(conc_case(kind, cfg, programs, choices, res))
+    out = lib.normalize(impl_concurrent(case))
+    fs = check_history(case, out)
+    if not fs and not isinstance(out, Err):
+        seq = lib.normalize(impl(case[:-1]))
+        if seq != out:
+            fs = [{"kind": "concurrent:not-linearizable", "sig": "notlin", "step": None,
+                   "what": "the concurrent history differs from its lock-acquisition-order witness run sequentially",
+                   "sequential": seq, "concurrent": out}]
+    for f in fs:
+        f["case"] = case
+        f["case_kind"] = "concurrent-exhaustive"
+    return fs
+
+
+def conc_worker(task):
+    lru, cfg, shape, lo, hi, only_disruptive = task
+    kind = 1 if lru else 0
+    n = 0
+    bad = []
+    for idx, programs in enumerate(conc_programs(lru, shape)):
+        if idx < lo or idx >= hi:
+            continue
+        if only_disruptive and not any(op[0] in (3, 4, 5) for op in programs[-1]):
+            continue        # the last thread must flush or resize while the others work
+        for choices, res in all_schedules(kind, cfg, programs):
+            n += 1
+            fs = conc_check(kind, cfg, programs, choices, res)
+            if fs and len(bad) < 2:
+                bad.append(fs[0])
+    return n, bad
+
+
 _gen_failures = []
 
 
@@ -687,6 +795,24 @@ def cases(ctx):
     for _ in range(ctx.n(40, 400)):
         kind, c = gen_case(rng, rng.choice([60, 120, 250]))
         yield kind + "-long", c
+    fixed = [
+        (1, 2, [[[1, 0, 1, 200, []], [1, 1, 2, 101, []]], [[5, 1, []]]]),
+        (1, 2, [[[1, 0, 1, 200, []], [0, 0, []]], [[4, []]]]),
+        (1, 1, [[[1, 0, 1, 200, []], [6, 0, []]], [[1, 1, 2, 101, []]], [[3, 0, []]]]),
+        (0, 2, [[[1, 0, 1, 200, []], [0, 0, []]], [[4, []]], [[1, 0, 2, 101, []]]]),
+    ]
+    for kind, cfg, programs in fixed[: ctx.n(2, 4)]:
+        seen_w = set()
+        for choices, res in all_schedules(kind, cfg, programs, limit=ctx.n(150, 3000)):
+            if res[0]:
+                _gen_failures.append({"kind": "concurrent:scheduler", "what": res[0], "programs": programs, "sig": "sched"})
+                continue
+            c = conc_case(kind, cfg, programs, choices, res)
+            w = repr(c[3 if kind == 1 else 4])
+            if w in seen_w:
+                continue
+            seen_w.add(w)
+            yield "concurrent-exhaustive", c
     for _ in range(ctx.n(120, 2000)):
         c, f = gen_concurrent(rng)
         if f:
@@ -1126,10 +1252,33 @@ def extra(ctx):
     n = 0
     bad = []
     procs = 4 if ctx.quick else 8
+    # every schedule (lock enter / exit / clock reads as scheduling points) of every small program
+    if ctx.quick:
+        cshapes = [(True, 2, (1, 1), False), (False, 2, (1, 1), False), (True, 2, (2, 1), True)]
+    else:
+        cshapes = [(True, 1, (1, 1), False), (True, 2, (1, 1), False), (False, 0, (1, 1), False), (False, 2, (1, 1), False),
+                   (True, 1, (2, 1), False), (True, 2, (2, 1), False), (False, 2, (2, 1), False), (True, 2, (1, 1, 1), False)]
+    ctasks = []
+    for lru, cfg, shape, only in cshapes:
+        total = len(CONC_ALPHABET[lru]) ** sum(shape)
+        chunk = max(8, total // 24)
+        for lo in range(0, total, chunk):
+            ctasks.append((lru, cfg, shape, lo, lo + chunk, only))
+    nconc = 0
     with multiprocessing.get_context("fork").Pool(procs) as pool:
         for k, b in pool.imap_unordered(scope_worker, tasks, chunksize=1):
             n += k
             bad += b
+        for k, b in pool.imap_unordered(conc_worker, ctasks, chunksize=1):
+            nconc += k
+            for f in b:
+                if len([x for x in F if x.get("case_kind") == "concurrent-exhaustive"]) < 2:
+                    F.append(f)
+    ctx.notes["exhaustive_concurrent"] = (
+        f"every schedule (scheduling points: lock enter and lock exit; the clock stands still) of every program over "
+        f"get/put/flush(k)/flush()/set_max_size/get_hits_for_key/snapshot with thread shapes "
+        + ", ".join(f"{'LRU' if l else 'Cache'}({c}){sh}{' last thread flushes or resizes' if o else ''}" for l, c, sh, o in cshapes)
+        + f": {nconc} schedules, each compared with its lock-order witness run sequentially and checked by the sequential oracle")
     seen_sig = set()
     for f in bad:
         if f["what"] in seen_sig or len(seen_sig) >= 3:
@@ -1149,6 +1298,6 @@ def extra(ctx):
         "flush(), set_max_size 1|2 (LRU), clock+2; LRUCache max_size 1..3, Cache interval 0|2; "
         + ("length 4 with K=3" if ctx.quick else "length 5 with K=3, and length 6 with K=2 for LRUCache(2) and Cache(2)")
         + f": {n} histories")
-    ctx.notes["extra_evaluations"] = n
-    ctx.notes["extra_nontrivial"] = n
+    ctx.notes["extra_evaluations"] = n + nconc
+    ctx.notes["extra_nontrivial"] = n + nconc
     return F
